@@ -19,6 +19,7 @@ import (
 
 	ps "github.com/prometheus/client_golang/prometheus"
 	"github.com/youzan/ZanRedisDB/common"
+	"github.com/youzan/ZanRedisDB/internal/verifhook"
 	"github.com/youzan/ZanRedisDB/metric"
 	"github.com/youzan/ZanRedisDB/pkg/wait"
 	"github.com/youzan/ZanRedisDB/raft"
@@ -1221,6 +1222,7 @@ func (nd *KVNode) applySnapshot(np *nodeProgress, applyEvent *applyInfo) {
 		return
 	}
 
+	verifhook.Crash("apply.snap_prepared")
 	// need wait raft to persist the snap onto disk here
 	select {
 	case <-applyEvent.raftDone:
@@ -1231,6 +1233,7 @@ func (nd *KVNode) applySnapshot(np *nodeProgress, applyEvent *applyInfo) {
 	// the snapshot restore may fail because of the remote snapshot is deleted
 	// and can not rsync from any other nodes.
 	// while starting we can not ignore or delete the snapshot since the wal may be cleaned on other snapshot.
+	verifhook.Crash("apply.snap_restoring")
 	if enableSnapApplyTest {
 		err = errors.New("failed to restore from snapshot in failed test")
 	} else {
@@ -1363,7 +1366,9 @@ func (nd *KVNode) applyEntries(np *nodeProgress, applyEvent *applyInfo) (bool, b
 		isReplaying := evnt.Index <= nd.rn.lastIndex
 		switch evnt.Type {
 		case raftpb.EntryNormal:
+			verifhook.Crash("apply.before_entry")
 			needBackup := nd.applyEntry(evnt, isReplaying, batch)
+			verifhook.Crash("apply.after_entry")
 			if needBackup {
 				forceBackup = true
 			}
@@ -1384,9 +1389,11 @@ func (nd *KVNode) applyEntries(np *nodeProgress, applyEvent *applyInfo) (bool, b
 			nd.rn.MarkReplayFinished()
 		}
 	}
+	verifhook.Crash("apply.before_commit_batch")
 	if batch != nil {
 		batch.CommitBatch()
 	}
+	verifhook.Crash("apply.after_commit_batch")
 	if shouldStop {
 		nd.rn.Infof("I am removed from raft group: %v", nd.ns)
 		go func() {
